@@ -156,7 +156,8 @@ fn check_spec<K: Kit>(ctx: &Ctx, kit: &K, seed: u64, n_lattice: usize, n_random:
     let mut r = Sm::derive(seed, &[10, spec.width() as u64, spec.comps.len() as u64]);
     let lat = state_lattice(&mut r, &spec, n_lattice, true);
     let mut b = Batch::default();
-    let base_ts = [0.0, 1e-9, 0.1, 0.25, 0.5, 0.75, 0.9, 1.0 - 1e-9, 1.0];
+    // (0.003 / 0.01: a short way along a long arc)
+    let base_ts = [0.0, 1e-9, 0.003, 0.01, 0.1, 0.25, 0.5, 0.75, 0.9, 1.0 - 1e-9, 1.0];
     for i in 0..lat.len() {
         for j in 0..lat.len() {
             let mut ts = base_ts.to_vec();
